@@ -37,11 +37,11 @@ def _dna_edge_iterator(meta_molecule, source):
                 yield (source, next_node)
                 source = next_node
                 break
-
-            if next_resid > src_resid and next_node == first_node:
-                yield (source, next_node)
-                return
         else:
+            # no residue below this one: at the 5' end of a circular
+            # strand the residue we started from is a neighbor
+            if source != first_node and meta_molecule.has_edge(source, first_node):
+                yield (source, first_node)
             return
 
 def complement_dsDNA(meta_molecule):
@@ -65,12 +65,15 @@ def complement_dsDNA(meta_molecule):
         when the resname does not match any of the know base-pair
         names an error is raised.
     """
-    last_node = list(meta_molecule.nodes)[-1]
+    # the strand to complete ends at the residue with the highest resid;
+    # node keys can be in any order (e.g. from a json file), new keys
+    # have to lie above all existing ones
+    last_node = max(meta_molecule.nodes, key=lambda node: meta_molecule.nodes[node]["resid"])
+    total = max(meta_molecule.nodes) + 1
     resname = BASE_LIBRARY[meta_molecule.nodes[last_node]["resname"]]
-    meta_molecule.add_monomer(last_node+1, resname, [])
+    meta_molecule.add_monomer(total, resname, [])
 
-    correspondance = {last_node: last_node+1}
-    total = last_node+1
+    correspondance = {last_node: total}
 
     pbar = tqdm(total=len(meta_molecule.nodes))
     for prev_node, next_node in _dna_edge_iterator(meta_molecule, source=last_node):
